@@ -23,7 +23,8 @@ RULE = ("all written rule trees with <=k branches (root with/without own conclus
 ASSUMPTIONS = ["two refinement siblings in one block, next_rule inside a refinement or alternative block, an alternative "
                "written after a next_rule in the same block, and conclusions not covering the branch's variables are "
                "outside the statement (it does not define them)"]
-BOUNDS = {"quick": {"branches": 6, "branches_two_variables": 5}, "thorough": {"branches": 7, "branches_two_variables": 6}}
+BOUNDS = {"quick": {"branches": 6, "branches_two_variables": 5, "branches_condition_styles": 4},
+          "thorough": {"branches": 7, "branches_two_variables": 6, "branches_condition_styles": 5}}
 CHUNK = 20
 RECYCLE_CHUNKS = 10
 BUDGET_S = {"quick": 900, "thorough": 8000}
@@ -103,7 +104,35 @@ def cases(tier, seed):
                 # conclusions would use a variable the branch does not bind: outside the statement
                 continue
             out.append(("two_vars", b))
+    # condition styles: a branch condition can be a comparison (above), a bare boolean attribute or a Predicate - the
+    # latter two are variable-like nodes (they overload ==, can be selected, ...) and are wired into the tree differently
+    for n in range(1, BOUNDS[tier]["branches_condition_styles"] + 1):
+        for b in blocks(n, "root"):
+            if n == 1 and not b[0]:
+                continue
+            for style in STYLES:
+                out.append(("style", style, b))
     return out
+
+
+STYLES = {"bare": lambda i: "bare", "pred": lambda i: "pred", "bare_even": lambda i: "bare" if i % 2 == 0 else "cmp",
+          "pred_odd": lambda i: "pred" if i % 2 else "cmp", "bare_pred": lambda i: "bare" if i % 2 == 0 else "pred"}
+_PRED = []
+
+
+def bit_predicate():
+    if not _PRED:
+        from krrood.entity_query_language.predicate import Predicate
+
+        @dataclass(eq=False)
+        class BitIs(Predicate):
+            item: object
+            index: int
+
+            def __call__(self):
+                return getattr(self.item, f"b{self.index}")
+        _PRED.append(BitIs)
+    return _PRED[0]
 
 
 @dataclass(eq=False)
@@ -115,7 +144,7 @@ class RSide:
         return self.name
 
 
-def build_and_run(block, two_vars=False):
+def build_and_run(block, two_vars=False, style=None):
     from krrood.entity_query_language.entity import entity, let, inference
     from krrood.entity_query_language.quantify_entity import an
     from krrood.entity_query_language.conclusion import Add
@@ -127,7 +156,13 @@ def build_and_run(block, two_vars=False):
         dom.append(RItem("x" + "".join("1" if b else "0" for b in bits), *bits))
     x = let(RItem, dom, name="x")
     v = inference(ROut)()
-    cond = lambda i: getattr(x, f"b{i}") == True
+    def cond(i):
+        how = STYLES[style](i) if style else "cmp"
+        if how == "bare":
+            return getattr(x, f"b{i}")
+        if how == "pred":
+            return bit_predicate()(x, i)
+        return getattr(x, f"b{i}") == True
     if two_vars:
         sides = [RSide("y0", 0), RSide("y1", 1), RSide("y-", -1)]
         y = let(RSide, sides, name="y")
@@ -165,12 +200,17 @@ def build_and_run(block, two_vars=False):
 def run_case(block):
     res = CaseResult()
     two_vars = block[0] == "two_vars"
+    style = None
     if two_vars:
         block = block[1]
+    elif block[0] == "style":
+        style, block = block[1], block[2]
     k = rdr.size(block)
     text = "\n".join(["with query(c0):"] + ["    " + l for l in rdr.show(block)])
+    if style:
+        text = f"[conditions written as: {', '.join('c%d=%s' % (i, STYLES[style](i)) for i in range(k))}]\n" + text
     try:
-        dom, got, k = build_and_run(block, two_vars)
+        dom, got, k = build_and_run(block, two_vars, style)
     except Exception as e:
         res.failures.append(Failure("crash", f"{text}\n{type(e).__name__}: {e}"))
         return res
@@ -191,8 +231,8 @@ def run_case(block):
     res.evaluations = len(dom)
     res.outcome_key = tuple(sorted((n, tuple(t)) for n, t in got.items()))
     if k >= 2:
-        res.nontrivial_key = (two_vars, block)
-    res.features = {"branches:%d" % k, "two_vars" if two_vars else "one_var"} | {"has:" + kk for kk in kinds_in(block)}
+        res.nontrivial_key = (two_vars, style, block)
+    res.features = {"branches:%d" % k, "two_vars" if two_vars else "one_var", "style:%s" % (style or "cmp")} | {"has:" + kk for kk in kinds_in(block)}
     if wrong:
         n, g, e = wrong[0]
         res.failures.append(Failure("wrong-conclusions", f"{text}\nfor the binding with condition values {n[1:]}: inferred tags {g}, "
@@ -243,11 +283,12 @@ def classify(case, failure):
 
 
 def cluster_key(case, f):
-    return tuple(sorted(shape_signature(case[1] if case[0] == "two_vars" else case))) + (case[0] == "two_vars",)
+    block = case[1] if case[0] == "two_vars" else case[2] if case[0] == "style" else case
+    return tuple(sorted(shape_signature(block))) + (case[0] if case[0] in ("two_vars", "style") else "",)
 
 
 def finish(run):
-    if run.exhaustive and not run.features.get("has:refinement"):
+    if run.exhaustive and not (run.features.get("has:refinement") and run.features.get("style:bare") and run.features.get("style:pred")):
         raise HarnessError("vacuous")
 
 
